@@ -2013,6 +2013,11 @@ def call_parser_function(
     try:
         ret = fn(ctx, fn_name, args, expander)
     except Exception as e:
+        if "Lua timeout error" in str(e):
+            # The time limit of an enclosing Lua invocation expired while a
+            # nested #invoke inside this function's arguments was running:
+            # that is not this function's failure; let the invocation unwind.
+            raise
         # Parser functions report bad input in-band (domain/overflow errors
         # in #expr, titles in namespaces without a talk page, missing
         # arguments, ...) instead of aborting the whole expansion.
